@@ -102,8 +102,20 @@ def anyInstrs (p : Instruction → Bool) : List Instruction → Bool
   | i :: rest => anyInstr p i || anyInstrs p rest
 end
 
-/-- known finding C02/raw-capture-region-named-i: a RAW-CAPTURE into a region named `i` whose printed
-duration ends with a number token -/
+/-- does a CALL argument list contain a real immediate (printed ending in a number token) directly followed
+by an identifier or memory reference named `i`? -/
+def callNumberThenI : List UnresolvedCallArgument → Bool
+  | .immediate z :: b :: rest =>
+    (fZero z.im && (match b with
+      | .identifier s => s == "i"
+      | .memoryReference r => r.name == "i"
+      | _ => false)) || callNumberThenI (b :: rest)
+  | _ :: rest => callNumberThenI rest
+  | [] => false
+
+/-- known finding C02/number-then-name-i: a printed number token directly followed by the name `i` — a
+RAW-CAPTURE into a region named `i` whose printed duration ends with a number token, or a CALL with a real
+immediate followed by an argument named `i` -/
 def isRawCaptureI : Instruction → Bool
   | .rawCapture r =>
     r.memoryReference.name == "i" &&
@@ -111,20 +123,43 @@ def isRawCaptureI : Instruction → Bool
        | some (.integer _) => true
        | some (.float _) => true
        | _ => false)
+  | .call c => callNumberThenI c.arguments
   | _ => false
+
+/-- known finding C02/qubit-variable-named-like-keyword: a qubit variable (written `%NOT`) whose name is a
+reserved word; printed without the `%` it lexes as that keyword -/
+def qubitsOfInstr : Instruction → List Qubit
+  | .circuitDefinition _ _ qvs _ => qvs.map Qubit.variable
+  | .measureCalibrationDefinition id _ => [id.qubit]
+  | .calibrationDefinition id _ => id.qubits
+  | .gateDefinition g => (match g.specification with
+    | .sequence s => s.gates.flatMap (·.qubits)
+    | _ => [])
+  | i => getQubits i
+
+def hasKeywordQubit (i : Instruction) : Bool :=
+  (qubitsOfInstr i).any fun q => match q with
+    | .variable s => isReservedWord s.toList
+    | _ => false
 
 /-- known finding C02/nested-definition-in-defcircuit: a DEFCIRCUIT whose body holds an instruction that
 prints on more than one line -/
 def isCircuitWithMultiline : Instruction → Bool
-  | .circuitDefinition _ _ _ body => body.any fun i => (toks stdFmt i).contains .newLine
+  | .circuitDefinition _ _ _ body => body.any fun i => (toks stdFmt i).any fun t =>
+      match t with
+      | .newLine => true
+      | .string s => s.contains '\n'
+      | _ => false
   | _ => false
 
 def kfTags (is : List Instruction) (t : Trip) (out : Sexp) : List String :=
   if specOnOut out then []
   else
     let reparseErr := piece out 3 == .list [.atom "reparse", .list [.atom "err"]]
-    (if reparseErr && anyInstrs isRawCaptureI t.listing1 then ["kf:C02/raw-capture-region-named-i"] else []) ++
-    (if reparseErr && anyInstrs isCircuitWithMultiline t.listing1 then
+    (if (reparseErr || piece out 5 == .list [.atom "texteq", .atom "false"]) && anyInstrs isRawCaptureI t.listing1
+      then ["kf:C02/number-then-name-i"] else []) ++
+    (if reparseErr && anyInstrs hasKeywordQubit t.listing1 then ["kf:C02/qubit-variable-named-like-keyword"] else []) ++
+    (if anyInstrs isCircuitWithMultiline t.listing1 then
       ["kf:C02/nested-definition-in-defcircuit"] else []) ++
     (if !reparseErr && piece out 5 == .list [.atom "texteq", .atom "true"] &&
         !(subsetQ (usedQubits is) (usedQubits t.listing1)) then
